@@ -1,7 +1,7 @@
 (* Locate.v — executable model of label-based access of fsic's VectorContainer
    (fsic/core/containers.py): _locate_period_in_span_fallback (81-99), _VALID_INDEX_METHODS
    (101-105, taken from Gen/Generated.v), _locate_period_in_span (307-351),
-   _resolve_period_slice (353-383), __getitem__ / __setitem__ (385-458), the part of
+   _resolve_period_slice (353-383), __getitem__ / __setitem__ (385-461), the part of
    __getattr__/__setattr__ that the access paths of C10 use, and the label-slice branch of
    _resolve_expression_indexes (599-649, the `isinstance(stop, int)` adjustment).
    Definitions only.  Generic in the element type V: access only moves data around. *)
@@ -250,27 +250,24 @@ Section Container.
           end
       end.
 
-    (* __setitem__ with a (name, index) key: the lookup comes first, then self.__dict__['_' + name] *)
+    (* __setitem__ with a (name, index) key: since fix 216fc36 the name is checked against `index` first (KeyError before
+       anything is located or written), then the lookup, then the write into self.__dict__['_' + name] *)
     Definition set_item_with (st : cstate) (name : string) (k : key) (w : operand) : cstate * outcome unit :=
       let finish (sr : series) (o : outcome (list V)) :=
         match o with Ret d => (set_data st name sr d, Ret tt) | Raise e => (st, Raise e) end in
-      match k with
-      | KSlice a b s =>
-          match resolve_slice_with lc (c_span st) a b s with
-          | Raise e => (st, Raise e)
-          | Ret (i, j, s') =>
-              match lookup name (c_vars st) with
-              | None => (st, Raise KeyError)
-              | Some sr => finish sr (bind (np_slice_positions (length (s_data sr)) i j s') (fun ps => assign (s_data sr) ps w))
+      match lookup name (c_vars st) with
+      | None => (st, Raise KeyError)
+      | Some sr =>
+          match k with
+          | KSlice a b s =>
+              match resolve_slice_with lc (c_span st) a b s with
+              | Raise e => (st, Raise e)
+              | Ret (i, j, s') => finish sr (bind (np_slice_positions (length (s_data sr)) i j s') (fun ps => assign (s_data sr) ps w))
               end
-          end
-      | KLabel x =>
-          match lc x with
-          | Raise e => (st, Raise e)
-          | Ret l =>
-              match lookup name (c_vars st) with
-              | None => (st, Raise KeyError)
-              | Some sr =>
+          | KLabel x =>
+              match lc x with
+              | Raise e => (st, Raise e)
+              | Ret l =>
                   match l with
                   | LPos i _ =>
                       match w with
